@@ -164,6 +164,11 @@ func (m c09) Case(c *Ctx, r *RNG) {
 	for i := 0; i < na; i++ {
 		s.Type.Attrs = append(s.Type.Attrs, AttrSpec{Name: names[i], Kind: allKinds[r.Intn(len(allKinds))], Null: r.Bool()})
 	}
+	if r.Chance(1, 10) {
+		// an attribute whose own name has surrounding white space or a leading '-': a rule names it verbatim
+		s.Type.Attrs[0].Name = r.Pick([]string{"rank ", " label", "\u00a0note", " ", "a b "})
+		c.Count("padded_attribute_names")
+	}
 	s.Type.Rels = []RelSpec{{Name: "one", ToOne: true, ToType: "x"}, {Name: "many", ToType: "x"}}
 	s.Holder = []string{"SoftCollection", "WrapperCollection", "Resources-soft", "Resources-wrapped", "Range-result"}[r.Intn(5)]
 	n := r.Range(0, maxN)
